@@ -28,7 +28,58 @@ HEALTH_ASSUME = [
     "the model iterates the heap in list order where Go iterates maps in random order; theorems quantify over all heaps (all orders)",
 ]
 
+CODEC_ASSUME = [
+    "byte-level model covers standalone array data slabs (root / non-root), array index slabs and large-value slabs, decoders of both format versions; NOT modelled at byte level: map slabs, inlined array/map children, the shared inlined-extra-data section (hence the compact-map exceptions) - on those the harness still runs the model-free oracles",
+    "elements are the harness's values (hx.TV byte strings of exactly controllable size incl. all CBOR head widths, SlabIDStorable); caller-supplied StorableDecoder/TypeInfoDecoder are the harness's, transcribed in Decode.lean",
+    "the CBOR library is modelled by its contract (prepareNext validates the complete next item; its validator is transcribed and compared with the library on 4000 exotic inputs per run); panics inside the library or the Go runtime are not modelled (recover + 2 s watchdog)",
+    "DataOK/MetaOK (field widths, count = len, size = prefix + sum) are hypotheses of the round-trip theorems; they follow from the C05 invariant (C06.no_uint16_truncation)",
+]
+
+NEST_ASSUME = [
+    "value-level World model with ONE current handle per container (HandlesCurrent); two live handles to one container are findings F2/F2b (known_findings.txt), reproduced on every run by the dualhandle stream",
+    "maps inside the World model use the default digester (4 levels); wrappers are the harness's SomeValue (2 bytes per level)",
+    "facts about Arr.set/Arr.get on reference elements that C01 states only for plain values are explicit hypotheses of notify_updates_array_parent / mutIdx_ok_arrInsert (they are validated by the correspondence on every nested operation)",
+]
+
 PROPS = {
+    "C06": {
+        "streams": ["codec"], "driver": {"codec": "codec"}, "level": "proof",
+        "trusted_base": LEAN_TB, "assumptions": CODEC_ASSUME,
+        "rule": "arrays built at T in {256,512,1024} with every element size class incl. externalised values; every slab stored is encoded by EncodeSlab and by the model (bytes compared), every committed register decoded by both; distinct = distinct slabs encoded",
+        "explanation": "Theorems: elem_size_eq_enc_len (every CBOR head width and the gap sizes), enc_len_data/meta/storable/enc_len (written bytes = reported size + extra data - 16 for an omitted sibling link), decoded_size_eq, no_uint16_truncation. Tie: the model's bytes must EQUAL EncodeSlab's bytes for every slab. Oracle: len(EncodeSlab) vs ByteSize on all slab kinds incl. maps and inlined children.",
+    },
+    "C07": {
+        "streams": ["codec", "malformed"], "driver": {"codec": "codec", "malformed": "codec"}, "level": "proof",
+        "trusted_base": LEAN_TB, "assumptions": CODEC_ASSUME,
+        "rule": "as C06 plus hand-crafted version-0 forms of every register and ~30000 mutated registers; distinct = distinct registers",
+        "explanation": "Theorems: decode_encode_data/meta/storable/decode_encode, reencode_fixpoint, flags_truthful, decode_rejects_trailing(_meta), storable_accepts_trailing. Tie: model-decode(Go bytes) = dump and Go-decode = model dump; header queries on raw bytes. Oracle: Encode(Decode(reg)) == reg, flags vs content.",
+    },
+    "C19": {
+        "streams": ["malformed"], "driver": {"malformed": "codec"}, "level": "proof",
+        "trusted_base": LEAN_TB, "assumptions": CODEC_ASSUME,
+        "rule": "bit flips, truncations at every length, splices, length-field and tag edits of valid registers of every kind and both versions (~22000 DecodeSlab calls, 6000 header queries, 4000 CBOR validator inputs per run); distinct = distinct byte strings",
+        "explanation": "Theorems: decode_never_panics (every Go slice expression / fixed-offset read / make is transcribed with its bounds condition; a violated condition is a distinct 'panic' outcome, proved unreachable for ALL byte strings), header_queries_total, alloc_linear (allocations <= input length), accessors_total; termination by structural recursion. Tie: outcome class (ok+dump / error / panic) equal on every mutated register. Oracle: recover + 2 s watchdog + ByteSize/ChildStorables on accepted slabs.",
+    },
+    "C09": {
+        "streams": ["array", "persist", "nested", "mapcollide"], "driver": {"array": "array", "persist": "array", "nested": "world", "mapcollide": "map"}, "level": "proof",
+        "trusted_base": LEAN_TB, "assumptions": ARRAY_ASSUME + NEST_ASSUME + [
+            "Lean obligations are the ARRAY container level (effects_complete, pop_releases_all, tree_ownership, allocated_ids_fresh); maps, collision-group slabs and inline<->standalone transitions are tied by the per-operation comparison of the net SlabStorage effect (EFF lines) and checked on the implementation by CheckStorageHealth with the exact expected root count",
+            "the caller disposes of what the library hands back (the harness removes returned large-value slabs: DSP lines)"],
+        "rule": "array / map-collision / nested histories; after every operation the net store/remove/alloc effect of the real SlabStorage calls is compared with the model's effect log; every 20 nested operations CheckStorageHealth(storage, 1 + detached) on the implementation; distinct = distinct programs",
+        "explanation": "Theorems: insert/set/remove_effects_complete (every slab whose content changed was stored, every slab that left the tree was removed, nothing else touched), pop_releases_all (emptying releases every slab but the root), tree_ownership (no slab owned twice, all under one address), allocated_ids_fresh. Graph level: C20. Oracle: storage health with exact root count.",
+    },
+    "C10": {
+        "streams": ["nested", "dualhandle"], "driver": {"nested": "world"}, "level": "proof",
+        "trusted_base": LEAN_TB, "assumptions": NEST_ASSUME,
+        "rule": "nested histories (arrays and maps in arrays and maps, wrapped 0-2 levels, depth up to 7, children growing and shrinking across the inline limit, parents restructured between child operations, commits + reload); plus the dual-handle scenarios; distinct = distinct programs",
+        "explanation": "Theorems: storable_inline_decision (inline exactly when a single slab fits the budget left after wrappers; size handed to the parent; value ID kept; storage effect), notify_updates_array_parent, handed_back_is_standalone, value_id_stable (all five operations), elem_sync_childStorable, mutIdx_ok_arrInsert, index_shift_order_independent. Tie: every nested operation replayed on the World model (observations, effects, nested dumps). Oracle: deep read-back through the outermost container, VerifyArray/VerifyMap, reload after commit.",
+    },
+    "C11": {
+        "streams": ["nested"], "driver": {"nested": "world"}, "level": "proof",
+        "trusted_base": LEAN_TB, "assumptions": NEST_ASSUME,
+        "rule": "nested histories with detach (remove / overwrite by a plain value / overwrite by ANOTHER container in the same slot), mutation through the detached handle, re-attachment elsewhere; distinct = distinct programs",
+        "explanation": "Theorems: detached_array_child / replaced_slot / detached_map_child _leaves_parent_unchanged (the callback answers not-found before any write: containers, index tables and effect log untouched), remove_forgets_index; handed_back_is_standalone (C10). Oracle: dump of the former parent unchanged, returned storable is a reference with the unchanged value ID.",
+    },
     "C01": {
         "streams": ["array", "persist", "settings"], "driver": {"array": "array", "persist": "array", "settings": "settings"}, "level": "proof",
         "trusted_base": LEAN_TB, "assumptions": ARRAY_ASSUME + [
